@@ -287,7 +287,23 @@ func (g *orderGen) expr(t *Type, d int) Expr {
 			return Cond{C: g.expr(Bool, d), A: g.expr(String, d), B: g.expr(String, d)}
 		}
 	case "Int?":
-		switch g.draw(9, "oint-form") {
+		switch g.draw(13, "oint-form") {
+		case 9:
+			// the member is itself optional: the chain's result is flattened to Int?
+			g.feat("optional-chaining-optional-member")
+			return Member{X: g.expr(tOS, d), Name: "o", Opt: true}
+		case 10, 11:
+			// left operand of type Int??: some(nil) is not nil, the right side must not run
+			g.feat("nil-coalescing-nested")
+			l := g.chainOI(d)
+			r := g.expr(tOInt, d)
+			if _, isCall := r.(Call); !isCall {
+				r = Cast{Op: "as", X: r, T: tOInt}
+			}
+			return Binary{Op: "??", L: l, R: r}
+		case 12:
+			g.feat("force-unwrap-nested")
+			return Force{X: g.chainOI(d)}
 		case 0:
 			g.feat("index-dict")
 			return Index{X: g.expr(tDII, d), I: g.index(d)}
@@ -429,6 +445,13 @@ func exact(e Expr, t *Type) Expr {
 	return e
 }
 
+// chainOI builds x?.oi(e): an optional-chained call of a method that itself
+// returns an optional. Static type Int??; value nil (x nil), some(nil) or an Int.
+func (g *orderGen) chainOI(d int) Expr {
+	g.feat("optional-chaining-optional-call")
+	return Invoke{X: g.expr(tOS, d), Opt: true, Name: "oi", Args: []Arg{{E: g.expr(Int, d)}}}
+}
+
 // anyExpr builds an AnyStruct expression whose dynamic type is mostly want.
 func (g *orderGen) anyExpr(d int, want *Type) Expr {
 	old := g.anyHint
@@ -476,7 +499,7 @@ func (g *orderGen) intTarget(d int) Expr {
 }
 
 func (g *orderGen) stmt(d int, nest int) []Stmt {
-	n := 11
+	n := 12
 	if nest >= 2 {
 		n = 6 // no compound statements
 	}
@@ -521,6 +544,27 @@ func (g *orderGen) stmt(d int, nest int) []Stmt {
 			R: g.expr(Bool, d-1)}
 		body := append([]Stmt{Assign{Target: V(c), Value: Binary{Op: "+", L: V(c), R: I(1)}}}, g.block(d-2, nest+1)...)
 		return []Stmt{Let{Name: c, IsVar: true, Init: I(0)}, While{Cond: cond, Body: body}}
+	case 11:
+		// a nested optional bound to a variable / tested by if-let (see FV2)
+		if g.draw(2, "nested-stmt") == 0 {
+			g.feat("if-let-nested")
+			name := g.fresh("w")
+			s := IfLet{Name: name, Init: g.chainOI(d - 1)}
+			s.Then = append([]Stmt{Log{E: V(name)}}, g.block(d-1, nest+1)...)
+			s.Else = g.block(d-1, nest+1)
+			return []Stmt{s}
+		}
+		g.feat("let-nested")
+		name := g.fresh("n")
+		// (kept shallow: the parser limits expression nesting to 16 levels)
+		r := g.expr(tOInt, d-2)
+		if _, isCall := r.(Call); !isCall {
+			r = Cast{Op: "as", X: r, T: tOInt}
+		}
+		name2 := g.fresh("n")
+		return []Stmt{Let{Name: name, Init: g.chainOI(d - 1)},
+			Let{Name: name2, Init: Binary{Op: "??", L: V(name), R: r}},
+			Log{E: Binary{Op: "??", L: V(name2), R: I(-77)}}}
 	case 9:
 		g.feat("if-let")
 		name := g.fresh("w")
@@ -555,12 +599,14 @@ func GenOrder(t *rapid.T) (*Program, *OrderInfo) {
 
 	logs := func(s string) Stmt { return Log{E: S(s)} }
 	sDecl := &CompDecl{Name: "S",
-		Fields: []Field{{Name: "f", T: Int, IsVar: true}, {Name: "g", T: Bool, IsVar: true}, {Name: "arr", T: tAInt, IsVar: true}},
+		Fields: []Field{{Name: "f", T: Int, IsVar: true}, {Name: "g", T: Bool, IsVar: true}, {Name: "arr", T: tAInt, IsVar: true},
+			{Name: "o", T: tOInt, IsVar: true}},
 		Init: &FuncDecl{IsInit: true, Params: []Param{{Name: "f", T: Int}, {Name: "g", T: Bool}}, Body: []Stmt{
 			logs("init"),
 			Assign{Target: Member{X: Self{}, Name: "f"}, Value: V("f")},
 			Assign{Target: Member{X: Self{}, Name: "g"}, Value: V("g")},
 			Assign{Target: Member{X: Self{}, Name: "arr"}, Value: ArrLit{T: tAInt, Elems: []Expr{V("f"), I(10), I(20)}}},
+			Assign{Target: Member{X: Self{}, Name: "o"}, Value: Cond{C: V("g"), A: V("f"), B: NilLit{}}},
 		}},
 		Methods: []*FuncDecl{
 			{Name: "m", Params: []Param{{Label: "_", Name: "a", T: Int}, {Name: "b", T: Int}}, Ret: Int, Body: []Stmt{
